@@ -1,10 +1,9 @@
 (* C20/LayoutRefineAxis.v — mpt_axis_set refines the specification's set on the abstraction. *)
 Require Import List String Ascii NArith ZArith Bool Lia.
 Import ListNotations.
-From MptV Require Import C20.LayoutTypes C20.LayoutConv C20.Gen_Layout C20.LayoutModel C20.LayoutSpec C20.LayoutLemmas C20.LayoutAbs.
+From MptV Require Import C20.LayoutTypes C20.LayoutConv C20.Gen_Layout C20.LayoutModel C20.LayoutSpec
+  C20.LayoutLemmas C20.LayoutAbs C20.LayoutFields C20.LayoutColour.
 Local Open Scope Z_scope.
-
-Definition asrc_of (s : option source) : asrc := match s with None => AReset | Some x => ASrc x end.
 
 Definition axis_how (f : axis_field) : bytes * how :=
   match f with
@@ -14,12 +13,158 @@ Definition axis_how (f : axis_field) : bytes * how :=
   | AxLpos => (bs "lpos", HChrKey) | AxTpos => (bs "tpos", HChrKey)
   end.
 
-Lemma axis_field_refines_begin (s : option source) o :
-  apply_named KAxis (abs (OAxis o)) (bs "begin") (HNum NF64) (asrc_of s) =
-  (sok (fst (axis_set_field AxBegin s o)), abs (OAxis (snd (axis_set_field AxBegin s o)))).
+(* the logarithmic flag is only ever set together with a zero interval count *)
+Definition axis_inv (o : axis) : Prop := axis_lg o = true -> ax_intv o = 0.
+
+Lemma lg_clear o v : axis_lg (set_ax_format (clear_lg (ax_format o)) v) = false.
+Proof. unfold axis_lg. cbn [ax_format set_ax_format]. rewrite land_clear_lg. reflexivity. Qed.
+Lemma lg_set o v : axis_lg (set_ax_format (set_lg (ax_format o)) v) = true.
+Proof. unfold axis_lg. cbn [ax_format set_ax_format]. rewrite land_set_lg. reflexivity. Qed.
+
+Lemma abs_set_intv_num o v :
+  abs (OAxis (set_ax_format (clear_lg (ax_format o)) (set_ax_intv v o))) = aput (abs (OAxis o)) (bs "intervals") (PInt v).
+Proof. rewrite !abs_axis. unfold intv_val. rewrite lg_clear. reflexivity. Qed.
+Lemma abs_set_intv_log o :
+  abs (OAxis (set_ax_format (set_lg (ax_format o)) (set_ax_intv 0 o))) =
+  aput (abs (OAxis o)) (bs "intervals") (PStr (Some (bs "log"))).
+Proof. rewrite !abs_axis. unfold intv_val. rewrite lg_set. reflexivity. Qed.
+Lemma abs_keep_intv o : axis_inv o ->
+  abs (OAxis (set_ax_format (clear_lg (ax_format o)) o)) =
+  if axis_lg o then aput (abs (OAxis o)) (bs "intervals") (PInt 0) else abs (OAxis o).
 Proof.
-  unfold apply_named, axis_set_field, num_field.
-  destruct s as [src|]; cbn [asrc_of].
-  - unfold denote, den_num. destruct (src_number NF64 src); cbn [fst snd sok]; rewrite ?abs_axis; try reflexivity.
-  - cbn [fst snd sok]. rewrite !abs_axis. reflexivity.
+  intros I. rewrite !abs_axis. unfold intv_val. rewrite lg_clear.
+  destruct (axis_lg o) eqn:L; [cbn [ax_intv set_ax_format]; rewrite (I L)|]; reflexivity.
+Qed.
+Lemma aget_intv o : aget (abs (OAxis o)) (bs "intervals") = Some (intv_val o).
+Proof. reflexivity. Qed.
+
+Lemma is_log_spec l : ncaseeq 3 l (bs "log") = beq (lowers (firstn 3 l)) (bs "log").
+Proof. rewrite ncaseeq_firstn. reflexivity. Qed.
+
+Ltac num_case abs_lemma :=
+  unfold apply_named, num_field;
+  match goal with
+  | s : option source |- _ =>
+    destruct s as [src|]; cbn [asrc_of];
+    [ unfold denote, den_num; destruct (src_number _ src); cbn [fst snd sok]; rewrite ?abs_lemma; reflexivity
+    | cbn [fst snd sok]; rewrite !abs_lemma; reflexivity ]
+  end.
+
+Lemma axis_intv_refines (s : option source) o : axis_inv o ->
+  apply_named KAxis (abs (OAxis o)) (bs "intervals") HIntv (asrc_of s) =
+  (sok (fst (axis_set_field AxIntv s o)), abs (OAxis (snd (axis_set_field AxIntv s o)))).
+Proof.
+  intros I. unfold apply_named. change (ok_default KAxis (bs "intervals")) with (PInt 0).
+  destruct s as [src|]; cbn [asrc_of axis_set_field].
+  - unfold denote, den_intv. rewrite aget_intv.
+    destruct (src_number NU8 src) as [e| | |v] eqn:E; cbn [fst snd sok].
+    + assert (forall t, (if ncaseeq 3 t (bs "log")
+                         then (SOk, set_ax_format (set_lg (ax_format o)) (set_ax_intv 0 o)) else (SFail e, o)) =
+                        (if beq (lowers (firstn 3 t)) (bs "log")
+                         then (SOk, set_ax_format (set_lg (ax_format o)) (set_ax_intv 0 o)) else (SFail e, o))) as L
+        by (intros t; rewrite is_log_spec; reflexivity).
+      destruct src as [t orc|v|x]; cbn [src_str]; try reflexivity.
+      * destruct t as [t|]; try reflexivity. rewrite L.
+        destruct (beq (lowers (firstn 3 t)) (bs "log")); cbn [fst snd sok]; [|reflexivity].
+        rewrite abs_set_intv_log. reflexivity.
+      * destruct v; try reflexivity. destruct s as [t|]; try reflexivity. rewrite L.
+        destruct (beq (lowers (firstn 3 t)) (bs "log")); cbn [fst snd sok]; [|reflexivity].
+        rewrite abs_set_intv_log. reflexivity.
+    + rewrite abs_set_intv_num. reflexivity.
+    + rewrite (abs_keep_intv o I). unfold intv_val. destruct (axis_lg o); reflexivity.
+    + rewrite abs_set_intv_num. reflexivity.
+  - cbn [fst snd sok]. rewrite abs_set_intv_num. reflexivity.
+Qed.
+
+Lemma axis_named f (s : option source) o :
+  (forall x, s = Some x -> wf_source x) -> axis_inv o ->
+  apply_named KAxis (abs (OAxis o)) (fst (axis_how f)) (snd (axis_how f)) (asrc_of s) =
+  (sok (fst (axis_set_field f s o)), abs (OAxis (snd (axis_set_field f s o)))).
+Proof.
+  intros W I. destruct f; cbn [axis_how fst snd]; try apply axis_intv_refines; auto; cbn [axis_set_field].
+  - (* title *)
+    unfold apply_named, str_field. destruct s as [src|]; cbn [asrc_of].
+    + rewrite (string_pset_spec _ _ (W _ eq_refl)). unfold denote.
+      destruct (den_str_cases src) as [E|[v E]]; rewrite E; cbn [fst snd sok]; rewrite ?abs_axis; reflexivity.
+    + cbn [fst snd sok]. rewrite !abs_axis. reflexivity.
+  - num_case abs_axis.
+  - num_case abs_axis.
+  - num_case abs_axis.
+  - num_case abs_axis.
+  - num_case abs_axis.
+  - num_case abs_axis.
+  - (* lpos *)
+    unfold apply_named. destruct s as [src|]; cbn [asrc_of].
+    + rewrite chr_or_key_spec. unfold denote.
+      destruct (den_chrkey_cases src) as [E|[E|[E|[c E]]]]; rewrite E; cbn [fst snd sok]; rewrite ?abs_axis; reflexivity.
+    + cbn [chr_or_key fst snd sok]. rewrite !abs_axis. reflexivity.
+  - (* tpos *)
+    unfold apply_named. destruct s as [src|]; cbn [asrc_of].
+    + rewrite chr_or_key_spec. unfold denote.
+      destruct (den_chrkey_cases src) as [E|[E|[E|[c E]]]]; rewrite E; cbn [fst snd sok]; rewrite ?abs_axis; reflexivity.
+    + cbn [chr_or_key fst snd sok]. rewrite !abs_axis. reflexivity.
+Qed.
+
+Lemma axis_resolve n : resolve_name KAxis n = option_map axis_how (axis_field_of n).
+Proof.
+  unfold resolve_name, axis_field_of. norm_names.
+  set (L := lowers n).
+  repeat match goal with
+  | |- (if ?b then _ else _) = _ =>
+    match b with
+    | context [beq L ?c] => destruct (beq L c) eqn:?; cbn [orb option_map]; [reflexivity|]
+    end
+  end.
+  reflexivity.
+Qed.
+
+Definition pairb {A} (r : sres * A) (f : A -> aobj) : bool * aobj := (sok (fst r), f (snd r)).
+
+Lemma axis_auto_title src o : wf_source src -> no_value src = false ->
+  (match src with SObj _ => False | _ => True end) ->
+  (match auto_select KAxis src with
+   | Some (p, h) => apply_named KAxis (abs (OAxis o)) p h (ASrc src)
+   | None => (false, abs (OAxis o))
+   end) =
+  (match ok_or (string_pset (ax_title o) src) with
+   | Some t => (true, abs (OAxis (set_ax_title t o)))
+   | None => (false, abs (OAxis o))
+   end).
+Proof.
+  intros W NV NO. rewrite (string_pset_spec _ _ W).
+  destruct src as [t orc|v|x]; [| |contradiction].
+  - cbn [auto_select]. unfold apply_named, denote. cbn [den_str ok_or]. rewrite !abs_axis. reflexivity.
+  - destruct v; cbn [auto_select den_str ok_or]; try reflexivity;
+      unfold apply_named, denote; cbn [den_str]; rewrite !abs_axis; reflexivity.
+Qed.
+
+Theorem axis_set_refines o (other : axis) name (s : osrc) :
+  wf_osrc s -> axis_inv o ->
+  sset KAxis (abs (OAxis o)) (abs (OAxis other)) name (of_osrc s) =
+  pairb (axis_set o name (resolve s (OAxis other))) (fun x => abs (OAxis x)).
+Proof.
+  intros W IV. unfold pairb. destruct name as [[|c n]|].
+  - (* "" *)
+    cbn [sset axis_set]. destruct s as [|t orc|v|]; cbn [of_osrc resolve fst snd sok]; try reflexivity;
+      try (destruct (no_value _); reflexivity).
+  - (* named *)
+    cbn [sset axis_set]. rewrite axis_resolve.
+    destruct (axis_field_of (c :: n)) as [f|]; cbn [option_map]; [|reflexivity].
+    destruct (axis_how f) as [p h] eqn:H.
+    replace p with (fst (axis_how f)) by (rewrite H; reflexivity).
+    replace h with (snd (axis_how f)) by (rewrite H; reflexivity).
+    destruct s as [|t orc|v|]; cbn [of_osrc resolve].
+    + apply (axis_named f None o); [discriminate|assumption].
+    + apply (axis_named f (Some (SText t orc)) o); [intros x E; inversion E; subst; exact W|assumption].
+    + apply (axis_named f (Some (SValue v)) o); [intros x E; inversion E; subst; apply wf_value; exact W|assumption].
+    + rewrite <- (apply_named_obj KAxis (abs (OAxis o)) (fst (axis_how f)) (snd (axis_how f)) (OAxis other)).
+      apply (axis_named f (Some (SObj (OAxis other))) o); [intros x E; inversion E; subst; exact Logic.I|assumption].
+  - (* NULL *)
+    cbn [sset axis_set]. destruct s as [|t orc|v|]; cbn [of_osrc resolve fst snd sok]; try reflexivity.
+    + destruct (no_value (SText t orc)) eqn:NV; [reflexivity|].
+      rewrite (axis_auto_title (SText t orc) o W NV Logic.I).
+      destruct (ok_or (string_pset (ax_title o) (SText t orc))); reflexivity.
+    + destruct (no_value (SValue v)) eqn:NV; [reflexivity|].
+      rewrite (axis_auto_title (SValue v) o (wf_value v W) NV Logic.I).
+      destruct (ok_or (string_pset (ax_title o) (SValue v))); reflexivity.
 Qed.
